@@ -265,4 +265,21 @@ CLAIMS = {
                 "to the empty suite, for which the coverage functions report 0.0 instead of the import-time coverage. The SUITE "
                 "strategy removing a whole redundant test case (with its assertions) is treated as intended.",
     },
+    "C27": {
+        "category": "proof",
+        "text": "Unbounded proof (SMT strings) on the real functions of analyses/module.py: __is_private/__is_protected/"
+                "__is_constructor equal their name predicates; __should_skip_by_visibility equals the statement's table (ALL: "
+                "never; PROTECTED: private or name-mangled; PUBLIC: private or protected; outside the module under test always "
+                "the PUBLIC rule; dunder names never skipped); __analyse_function and __analyse_method call "
+                "add_accessible_object_under_test at most once and only when add_to_test holds and the last segment of the "
+                "callable's name (for lambdas also the assigned name) is eligible under the configured visibility, and never for "
+                "__init__ as a method.",
+        "note": "the 'exactly' direction over real modules - which objects vars(module)/inspect deliver, that add_to_test is "
+                "'defined in the module under test', classes, enums, aliases, ignore lists - is covered only by the bounded "
+                "stand-in (real generate_test_cluster on one feature-rich generated module under PUBLIC/PROTECTED/ALL with and "
+                "without an ignore list, compared with an oracle written from the statement), never counted as proved. "
+                "__is_name_mangled is a regular-expression match kept abstract (MANGLED) in the proofs and tabulated in the "
+                "bounded part; callables of the module under test are opaque values; a constructor's name is __init__ (class "
+                "names are not filtered - pinned by the repository's tests).",
+    },
 }
